@@ -206,6 +206,27 @@ func (o *c09) Step(r *StepRec) []Violation {
 		for _, cid := range batchCandidates(pre, r.Height) {
 			p0 := pre.Ctxs[cid]
 			p1, alive := post.Ctxs[cid]
+			// "a consumer's inability to pay a batch moves running to paused": when the providers that
+			// qualify cost more than the consumer can possibly hold in this block (its balance before the
+			// block plus every refund of the block; during the issuing phase a balance only falls), the
+			// context must not go on running. (Judged where one coin exists: section 4.10 of DESIGN.md.)
+			if p0.State == stRunning && alive && !p0.SuperMode && !totalReached(p0) && o.w.cfg.FundingPoint == nil {
+				if el := eligible(p0, post, pre, r.TimeNs, o.w.cfg); !el.Unparsed && len(el.E) > 0 && len(el.E) >= int(p0.ResponseThreshold) {
+					most := o.w.cfg.balIn(pre, hx(p0.Consumer))
+					for _, ri := range o.m.Expiring(r.Height) {
+						if !ri.Super && ri.Consumer == hx(p0.Consumer) {
+							most += ri.Fee
+						}
+					}
+					if el.Total > most {
+						o.hit("consumer_cannot_pay_due_batch")
+						if p1.State == stRunning {
+							o.fail("c09:unpaid_keeps_running", "context %s: the qualifying providers cost %d, its consumer holds at most %d in this block, yet the context is still running (batch counter %d -> %d)",
+								short(cid), el.Total, most, p0.BatchCounter, p1.BatchCounter)
+						}
+					}
+				}
+			}
 			if p0.State != stRunning || !alive || p1.State != stRunning {
 				continue
 			}
